@@ -75,6 +75,26 @@ func loopCounter(header *ssa.BasicBlock) (*ssa.Phi, int64, bool) {
 	return nil, 0, false
 }
 
+// loopIndex: the value that plays the role of the loop index inside the body and its first
+// value: the phi itself for `for i := k; ...; i++`, the incremented value for range loops
+// (go/ssa rotates them: phi starts at -1 and the body uses phi+1).
+func loopIndex(header *ssa.BasicBlock) (ssa.Value, *ssa.Phi, int64, bool) {
+	phi, init, ok := loopCounter(header)
+	if !ok {
+		return nil, nil, 0, false
+	}
+	if init == -1 {
+		for _, r := range *phi.Referrers() {
+			if bo, ok := r.(*ssa.BinOp); ok && bo.Op == token.ADD && bo.X == ssa.Value(phi) && bo.Block() == header {
+				if k, ok := constInt(bo.Y); ok && k == 1 {
+					return bo, phi, 0, true
+				}
+			}
+		}
+	}
+	return phi, phi, init, true
+}
+
 func ruleQRFormulas(c *Ctx) {
 	// ---- Q8 character count indicator widths
 	const R8 = "Q8-QR-CHARCOUNT"
@@ -395,19 +415,9 @@ func ruleQRFormulas(c *Ctx) {
 			isRange := false
 			if ld, ok := vi.(*ssa.UnOp); ok {
 				if ia, ok := ld.X.(*ssa.IndexAddr); ok {
-					if bo, ok := ia.Index.(*ssa.BinOp); ok && bo.Op == token.ADD {
-						if phi, ok := bo.X.(*ssa.Phi); ok {
-							if k, ok := constInt(bo.Y); ok && k == 1 {
-								for i, e := range phi.Edges {
-									if !phi.Block().Dominates(phi.Block().Preds[i]) {
-										if k0, ok := constInt(e); ok && k0 == -1 {
-											isRange = true
-										}
-									} else if e != ssa.Value(bo) {
-										isRange = false
-									}
-								}
-							}
+					for _, blk := range fn.Blocks {
+						if idx, _, init, ok := loopIndex(blk); ok && idx == ia.Index && init == 0 {
+							isRange = true
 						}
 					}
 				}
@@ -489,41 +499,20 @@ func ruleQRFormulas(c *Ctx) {
 	if fn := c.theFunc(R12, "qr.splitToBlocks"); fn != nil && len(fn.Params) == 2 {
 		n := NewNormer(c.P)
 		n.BindParams(fn, "data", "vi")
-		k := 0
-		eachInstr(fn, func(b *ssa.BasicBlock, ins ssa.Instruction) {
-			call, ok := ins.(*ssa.Call)
-			if !ok || calleeOf(call) == nil || c.P.FuncName(calleeOf(call)) != "qr.(*errorCorrection).calcECC" {
-				return
-			}
-			k++
-			c.expectPoly(R12, fmt.Sprintf("qr.splitToBlocks/calcECC#%d-count", k), call.Pos(), n, call.Common().Args[2], "vi.ErrorCorrectionCodewordsPerBlock")
-		})
-		c.Check(R12, "qr.splitToBlocks/calcECC-sites", fn.Pos(), k == 2, "2 calcECC calls (group 1 and group 2)", fmt.Sprint(k))
+		sites := c.P.deepCallsTo(fn, c.P.Func("qr.(*errorCorrection).calcECC"))
+		for k, s := range sites {
+			got := n.NormAt(s, s.Ins.(*ssa.Call).Common().Args[2])
+			c.Check(R12, fmt.Sprintf("qr.splitToBlocks/calcECC#%d-count", k+1), s.Ins.Pos(), pEqual(got, MustRef("vi.ErrorCorrectionCodewordsPerBlock")), "vi.ErrorCorrectionCodewordsPerBlock", got.String())
+		}
+		c.Check(R12, "qr.splitToBlocks/calcECC-sites", fn.Pos(), len(sites) == 2, "calcECC reached in 2 contexts (group 1 and group 2)", fmt.Sprint(len(sites)))
 		// receive counts: each receive sits in a loop nest bounded by (DataCodeWordsPerBlockInGroup g) inside (NumberOfBlocksInGroup g)
 		seenG := map[int]bool{}
-		eachInstr(fn, func(b *ssa.BasicBlock, ins ssa.Instruction) {
-			u, ok := ins.(*ssa.UnOp)
+		c.P.deepEach(fn, 2, func(s DeepSite) {
+			u, ok := s.Ins.(*ssa.UnOp)
 			if !ok || u.Op != token.ARROW {
 				return
 			}
-			var bounds []*Cond
-			for d := b; d != nil; d = d.Idom() {
-				inLoop := false
-				for _, p := range d.Preds {
-					if d.Dominates(p) && (p == b || reachableWithin(d, b, p)) {
-						inLoop = true
-					}
-				}
-				if !inLoop {
-					continue
-				}
-				if phi, init, ok := loopCounter(d); ok && init == 0 && len(d.Succs) == 2 {
-					nn := NewNormer(c.P)
-					nn.BindParams(fn, "data", "vi")
-					nn.Bind[phi] = "i"
-					bounds = append(bounds, nn.EdgeCond(d, d.Succs[0]))
-				}
-			}
+			bounds := enclosingLoopBounds(n, s)
 			matched := 0
 			for g := 1; g <= 2; g++ {
 				if len(bounds) == 2 {
@@ -545,6 +534,47 @@ func ruleQRFormulas(c *Ctx) {
 		})
 		c.Check(R12, "qr.splitToBlocks/receive-loops", fn.Pos(), seenG[1] && seenG[2], "one receive loop nest per group", fmt.Sprint(seenG))
 	}
+}
+
+// enclosingLoopBounds: the continue-conditions (index named "i") of the counting loops around a
+// deep site, innermost first, across the chain of helper calls.
+func enclosingLoopBounds(n *Normer, s DeepSite) []*Cond {
+	var out []*Cond
+	saved := n.Ctx
+	defer func() { n.Ctx = saved }()
+	level := len(s.Path)
+	ins := s.Ins
+	for {
+		n.Ctx = s.Path[:level]
+		b := ins.Block()
+		for d := b; d != nil; d = d.Idom() {
+			inLoop := false
+			for _, p := range d.Preds {
+				if d.Dominates(p) && (p == b || reachableWithin(d, b, p)) {
+					inLoop = true
+				}
+			}
+			if !inLoop || len(d.Succs) != 2 {
+				continue
+			}
+			if idx, _, init, ok := loopIndex(d); ok && init == 0 {
+				old, had := n.Bind[idx]
+				n.Bind[idx] = "i"
+				out = append(out, n.EdgeCond(d, d.Succs[0]))
+				if had {
+					n.Bind[idx] = old
+				} else {
+					delete(n.Bind, idx)
+				}
+			}
+		}
+		if level == 0 {
+			break
+		}
+		level--
+		ins = s.Path[level]
+	}
+	return out
 }
 
 // reachableWithin: can p be reached from b without leaving the blocks dominated by d?
